@@ -146,6 +146,9 @@ def r4(ctx, facts, cfg):
     ctx.ob("C08.R4a", "_check_failure_counter:reports-the-reset-value", ok,
            "every notifier message is formatted from the value returned by get_and_reset_failure_counter (%d message site(s))" % len(notif), fn=f)
     loops = [n for n in f.walk() if n["k"] == "CXXForRangeStmt" and is_this_field(strip(n.get("range")), "_active_thread_contexts_cache")]
+    if not loops:
+        from rules.common import other_loop_over
+        other_loop_over(f, "_active_thread_contexts_cache", "_check_failure_counter")
     early = [x for lp in loops for x in walk(lp.get("body")) if x["k"] in ("BreakStmt", "ReturnStmt", "GotoStmt")]
     ctx.ob("C08.R4b", "_check_failure_counter:all-contexts", bool(loops) and not early,
            "the counters of all active thread contexts are inspected (no early exit)", fn=f)
